@@ -25,8 +25,14 @@ def comp_info(gen: ModelGen, ent) -> Dict[str, Any]:
     fqn, comp, node = ent
     ports = {}
     for port in comp.ports:
+        try:
+            itf = gen.interface_by_fqn(port.type.target) if port.type.target else None
+        except KeyError:
+            itf = None
         ports[port.name] = {'itf': port.type.target, 'direction': port.direction,
-                            'injected': port.injected}
+                            'injected': port.injected,
+                            'n_in': sum(1 for e in itf.events if e.direction == 'in') if itf else 0,
+                            'n_out': sum(1 for e in itf.events if e.direction == 'out') if itf else 0}
     return {
         'fqn': '.'.join(fqn), 'scope': list(node.fqn), 'kind': type(comp).__name__.lower(),
         'ports': ports, 'order': [p.name for p in comp.ports],
@@ -117,7 +123,9 @@ def rand_cfg(rng: random.Random, gen: ModelGen, ent, multiclient: Optional[bool]
         'origin': rng.choice(['create', 'import']),
         'copyright': rng.choice(COPYRIGHTS) if hostile_text else 'Copyright (c) test',
         'creator': rng.choice([None, 'me', 'tool v1\nline 2'] + (COPYRIGHTS if hostile_text else [])),
-        'prefix': rng.choice([None, None, ['QZOther'], ['QZMy', 'QZOwn', 'QZPrefix'], ['qz_1x']]),  # never generated as model names
+        # never generated as model names; 'Dzn' is the identifier the library itself appends
+        'prefix': rng.choice([None, None, ['QZOther'], ['QZMy', 'QZOwn', 'QZPrefix'], ['qz_1x'],
+                              ['QZAcme', 'Dzn'], ['Dzn']]),
     }
     if mc is not None:
         enc['multiclient'] = {k: mc[k] for k in ('port', 'claim', 'reply', 'release')}
